@@ -55,7 +55,7 @@ Fixpoint eb (g : graph) (fuel : nat) (anc : list Z) (index : Z) : option (list (
   match fuel with
   | O => None
   | S f =>
-    if zmem index anc then Some [(0%Z, [])]
+    if zmem index anc then Some []
     else match index with
     | Z0 => Some [(0%Z, [0%Z])]
     | Zneg _ => Some [(index, [index])]
